@@ -161,6 +161,10 @@ ALT = {
     ("ExchangeMove", "bias_towards_insert"): 0.0,
     ("CompositeExchangeMove", "bias_towards_insert"): 0.0,
     ("Verlet", "max_steps"): 1,
+    # a value that is ANOTHER class's default (the base moves default to 10000, the Hamiltonian move to 10)
+    ("HamiltonianDisplacementMove", "max_attempts"): 10000,
+    ("DisplacementMove", "max_attempts"): 10,
+    ("CellMove", "max_attempts"): 10,
     # a time step ASSIGNED on the live integrator (step-size adaptation), in ASE units: not of the form x * fs
     ("Verlet", "dt"): ("assign", 0.030644085465574754),
     ("Canonical", "temperature"): 1e-3,
@@ -267,6 +271,7 @@ def run_case(cid, cfg, R):
     if cls2 is not type(obj):
         row.update(status="registered-name-is-another-class", message=f"'{d2['name']}' is registered as {cls2.__name__}", detail_key=cls2.__name__)
         return row
+    snapshot = encode(d2) if R[name]["role"] == "driver" else None
     try:
         obj2 = cls2.from_dict(d2)
     except Exception as ex:  # noqa: BLE001
@@ -278,6 +283,15 @@ def run_case(cid, cfg, R):
     if type(obj2) is not type(obj):
         row.update(status="type-changed", message=f"rebuilt object is a {type(obj2).__name__}")
         return row
+    if snapshot is not None:
+        # the dictionary is a snapshot: what the rebuilt simulation does to ITS atoms must not reach into it (the same
+        # dictionary may be used again, for a second replica or to be written to disk)
+        obj3 = cls2.from_dict(d2)
+        obj3.atoms.positions = obj3.atoms.positions + 0.123
+        obj3.atoms.set_cell(obj3.atoms.cell.array * 1.01, scale_atoms=False)
+        if encode(d2) != snapshot:
+            row.update(status="dictionary-aliased-by-rebuilt-object", message="moving the atoms of a simulation rebuilt from a dictionary changed the dictionary itself (from_dict shares the caller's objects)")
+            return row
     lost = []
     for p in sorted(R[name]["params"]):
         try:
